@@ -37,6 +37,7 @@ fn main() {
     run.ev.add_u64("states", bs);
     run.ev.add_u64("transitions", bt);
 
+    if std::env::var("VERIF_TIMING").is_ok() { eprintln!("bloom done {:.1}s", run.ev.started.elapsed().as_secs_f64()); }
     // ---- HashSet as Filter -------------------------------------------------------------
     let (hs, ht, hv) = bloom::explore_hashset();
     for x in hv {
@@ -81,12 +82,14 @@ fn main() {
         }
         run.ev.add_u64("states", ex.stats.states);
         run.ev.add_u64("transitions", ex.stats.transitions + ps.pairs);
+        if std::env::var("VERIF_TIMING").is_ok() { eprintln!("  {} at {:.1}s", label, run.ev.started.elapsed().as_secs_f64()); }
         run.ev.push("quotient", json!({"config": label, "states": ex.stats.states, "transitions": ex.stats.transitions, "closed": ex.stats.closed, "union_pairs": ps.pairs, "unions_ok": ps.ok, "unions_failing": ps.failing}));
         for v in ex.viols.into_iter().chain(pv) {
             run.violation(v);
         }
     }
 
+    if std::env::var("VERIF_TIMING").is_ok() { eprintln!("qf done {:.1}s", run.ev.started.elapsed().as_secs_f64()); }
     // ---- Cuckoo filter -----------------------------------------------------------------
     let fps3 = vec![1u64, 2, 3];
     let mut ccfgs: Vec<CfCfg> = vec![];
@@ -97,7 +100,7 @@ fn main() {
         ccfgs.push(CfCfg::new(2, 2, 2, fps3.clone(), alt.clone(), None, if thorough { 8 } else { 3 }, false));
     }
     ccfgs.push(CfCfg::new(2, 2, 64, vec![1, 2, 1 << 63, u64::MAX], vec![0, 1, 1, 0], Some(2), 0, false));
-    for alt in [vec![1u64, 2], vec![3, 0]] {
+    for alt in if thorough { vec![vec![1u64, 2], vec![3, 0], vec![2, 3]] } else { vec![vec![3u64, 0]] } {
         ccfgs.push(CfCfg::new(2, 4, 2, vec![1, 3], alt, Some(1), 0, false));
     }
     if thorough {
@@ -107,6 +110,7 @@ fn main() {
     }
     let cres = par_map(&ccfgs, n_threads(), |cfg| {
         let label = cfg.label.clone();
+        let t0 = std::time::Instant::now();
         let model = match CfModel::new(cfg.clone(), Mode::Elements, true) {
             Ok(m) => m,
             Err(e) => return Err((label, e)),
@@ -124,6 +128,7 @@ fn main() {
             ps = r.0;
             pv = r.1;
         }
+        if std::env::var("VERIF_TIMING").is_ok() { eprintln!("  {:.1}s {} states={} pairs={}", t0.elapsed().as_secs_f64(), label, ex.stats.states, ps.pairs); }
         Ok((label, ex, ps, pv))
     });
     let (mut cs, mut ct, mut cpairs, mut cruns) = (0u64, 0u64, 0u64, 0u64);
